@@ -3,6 +3,8 @@ TESTS = [
     # Two C12 clauses for the REAL LocalBuildExecutor.Execute: the build directory obtained from the
     # BuildDirectoryCreator is closed exactly once on every exit path (fault per stage / cancellation at
     # every recorded call), and do_not_cache actions ask for a non-digest (parallel-safe) directory.
+    # One case in five drives LocalBuildExecutor.CheckReadiness() instead (readiness_faults_test.go):
+    # same tracked build directory, every recorded call failed once and cancelled once.
     T("outputs", "TestC12ExecutorBuildDirectoryLifecycle",
       {"checks": 250, "shards": 4, "timeout": 300},
       {"checks": 5000, "shards": 8, "timeout": 1500}),
@@ -11,5 +13,6 @@ ASSUMPTIONS = [
     "C12 executor part: 'Close is called on every exit path' is judged on a wrapper around the BuildDirectory the fake creator returns and around every handle entered from it; handles entered from the build directory must be closed before it and nothing may be called on a handle after its Close (the code's defers run in that order; a directory that removes itself on Close must not be in use)",
     "C12 executor part: a failing Close of the build directory must yield a non-OK response ('Failed to close build directory', its code when nothing failed earlier); the result of Close on entered handles is ignored by the code and nothing is required of it",
     "C12 executor part: GetBuildDirectory receives nil iff Action.do_not_cache (local_build_executor.go: actionDigestIfNotRunInParallel), else the digest of the action being executed; SharedBuildDirectoryCreator maps nil to a counter-named directory and a digest to a digest-named one (checked by the isolation package)",
+    "C12 executor part, readiness checks: CheckReadiness() asks GetBuildDirectory for a nil digest (it belongs to no action); it does not remove check_readiness itself (nothing in the code documents a removal: that is left to Close of the build directory, i.e. to SharedBuildDirectoryCreator's RemoveAll, checked by the isolation package), so the oracle only requires that nothing else is created; the result of the deferred buildDirectory.Close() is dropped by the code, so a failing Close requires nothing of the returned error; 'the runner will validate that it exists' is judged when the fake runner is called (directory present, build directory still open, path = build directory path + check_readiness)",
     "C12 executor part: one fault per run; outer-context cancellation is delivered at recorded call boundaries only; execution time-outs never fire (fake clock); fake runner/CAS/creator refuse a done context, in-memory directory calls ignore it",
 ]
